@@ -455,6 +455,13 @@ func (ev *Evaluator) call(e *Expr) Val {
 	case "amt":
 		a := args()
 		return Select(m.asCoins(a[0]).M, ev.term(a[1]))
+	case "pos":
+		// position of a denom in a valid coin list
+		a := args()
+		c := m.asCoins(a[0])
+		E.declCoinFuns(c.Dec)
+		_, _, sfx := coinSorts(c.Dec)
+		return App(SInt, "cidx"+sfx, c.M, ev.term(a[1]))
 	case "S":
 		E.declKeys()
 		return Select(m.S(), targs()[0])
